@@ -162,7 +162,30 @@ NEAR_VALID = {
     'ptr_off_min': 'const char v[1]={0}; const char *ptrs[1]={v - -2147483648}; void main(){}',
     'ptr_off_min2': 'const char v[1]={0}; const char *p1 = v - -2147483648; const char lo = v - -2147483648 & 255; const char *tab[2] = {v + 2147483647, v - -2147483648 >> 8};  void main(){}',
     'deep_parens': 'void main() { X = ' + '(' * 3000 + '1' + ')' * 3000 + '; }',
+    # reported by the round-7 readers of the unmodified tree
+    'insert_code_multibyte_char': "void main() { X = '\U0001f600'\n; }",
+    'insert_code_multibyte_char2': "char c;\nvoid main() {\n c = 1; X='\u20ac'+'\u20ac';\n c = 2; }",
+    'short_idx_shift': 'short arr[4]; void main() { X = arr[2147483647] >> 8; }',
+    'macro_2000_params': '#define F(' + ','.join('p%d' % i for i in range(2000)) + ') 0\nvoid main() { X = 1; }',
+    'macro_empty_param': '#define f(a,) a\nvoid main() { X = 1; }',
+    'macro_digit_param': '#define f(1a) 1a\nvoid main() { X = 1; }',
+    'cctmp_function': 'char *p; char *q; void cctmp0() {} void main() { p = "a"; q = "b"; cctmp0(); }',
+    'interrupt_prefix_function': 'char t; void interrupt_tick() { t++; } void inline_it() { t--; } void main() { interrupt_tick(); inline_it(); }',
+    # call cycles (the in-use computation walks the call tree)
+    'mutual_recursion': 'void pong(); void ping() { if (X) pong(); } void pong() { X--; ping(); } void main() { X = 3; ping(); }',
+    'mutual_recursion3': 'void b(); void c(); void a() { if (X) b(); } void b() { X--; c(); } void c() { a(); } void main() { a(); }',
+    'mutual_recursion_unreached': 'void q(); void p() { q(); } void q() { p(); } void main() { X = 1; }',
+    'mutual_recursion_interrupt': 'void q(); void p() { if (X) q(); } void q() { X--; p(); } void interrupt irq() { p(); } void main() { X = 1; }',
+    'mutual_recursion_args': 'char odd(char n); char even(char n) { if (n) return odd(n - 1); return 1; } char odd(char n) { if (n) return even(n - 1); return 0; } void main() { X = even(4); }',
 }
+
+# inputs made of several files: (name, source, [(file name, content)])
+NEAR_VALID_FILES = [
+    ('self_include', '#include "self.h"\nvoid main() { X = 1; }\n', [('self.h', b'char a;\n#include "self.h"\n')]),
+    ('mutual_include', '#include "a.h"\nvoid main() { X = 1; }\n', [('a.h', b'#include "b.h"\n'), ('b.h', b'#include "a.h"\n')]),
+    ('guarded_self_include', '#include "g.h"\nvoid main() { X = gv; }\n', [('g.h', b'#ifndef G_H\n#define G_H\n#include "g.h"\nconst char gv = 3;\n#endif\n')]),
+    ('deep_include', '#include "d0.h"\nvoid main() { X = 1; }\n', [('d%d.h' % i, ('#include "d%d.h"\n' % (i + 1)).encode() if i < 40 else b'char deep;\n') for i in range(41)]),
+]
 
 # option sets that are near-valid themselves: (name, source, options)
 NEAR_VALID_OPTIONS = [
@@ -331,7 +354,26 @@ def classify(r, src, files=()):
         return 'panic', '%s: %s' % (fn, msg)
     if st == 'hang':
         return 'hang', 'hang'
+    if st == 'abort':
+        return 'abort', 'the compiling process died (stack overflow / abort): ' + re.sub(r'\d+', 'N', (r.get('msg') or ''))[-120:]
     return 'harness', st
+
+
+def run_isolating(chunk, profile):
+    """the harness on a list of cases; when the PROCESS dies (a stack overflow aborts it: no panic to catch) the
+    list is split until the input that kills it stands alone: that case gets the status 'abort'"""
+    jobs = ''.join(compile_job(c[0], c[1], args=c[2], want=['funcs'], files=(c[4] if len(c) > 4 else ())) for c in chunk)
+    try:
+        res = run_ccv(jobs, profile=profile, timeout_ms=4000, tag='tot')
+        if len(res) == len(chunk):
+            return res
+        why = 'the harness returned %d results for %d jobs' % (len(res), len(chunk))
+    except HarnessError as e:
+        why = str(e)[-300:]
+    if len(chunk) == 1:
+        return [{'id': chunk[0][0], 'status': 'abort', 'msg': why}]
+    h = len(chunk) // 2
+    return run_isolating(chunk[:h], profile) + run_isolating(chunk[h:], profile)
 
 
 def run(ctx):
@@ -349,6 +391,9 @@ def run(ctx):
             cases.append(('nv:%s:%d' % (name, oi), src, opts, name))
     for name, src, opts in NEAR_VALID_OPTIONS:
         cases.append(('nvo:%s' % name, src, opts, name))
+    for name, src, files in NEAR_VALID_FILES:
+        for oi, opts in enumerate(OPTION_SETS[:2]):
+            cases.append(('nvf:%s:%d' % (name, oi), src, opts, name, files))
     for i in range(n_mut):
         s = mutate(rng, rng.choice(seeds))
         if rng.random() < 0.3:
@@ -371,11 +416,11 @@ def run(ctx):
         pcases = cases if (profile == 'release' or not quick) else [c for c in cases if c[0].startswith('nv')]
         for lo in range(0, len(pcases), 20000):
             chunk = pcases[lo:lo + 20000]
-            jobs = ''.join(compile_job(cid, src, args=opts, want=['funcs']) for (cid, src, opts, cls) in chunk)
-            res = run_ccv(jobs, profile=profile, timeout_ms=4000, tag='tot')
-            for (cid, src, opts, cls), r in zip(chunk, res):
+            res = run_isolating(chunk, profile)
+            for c_, r in zip(chunk, res):
+                cid, src, opts, cls = c_[:4]
                 text = src.decode('utf-8', 'replace') if isinstance(src, bytes) else src
-                v, key = classify(r, text)
+                v, key = classify(r, text, c_[4] if len(c_) > 4 else ())
                 stats[v] = stats.get(v, 0) + 1
                 if v in ('ok', 'err'):
                     continue
